@@ -135,6 +135,7 @@ class World:
         self.susp_track = {}      # key -> dict(start_tick, D, pool, cpu, ram, ops, cur)
         self.asg_seen = {}        # id(assignment) -> assignment (accepted)
         self.model_dead = False
+        self.static_reject = None
         self.last_reject = None   # reason for which the reference executor refused the last tick's commands (if it did)
         self.exec_call = None     # F6 routes the call to the unwrapped Executor.run_one_tick
 
@@ -219,12 +220,21 @@ class World:
             except Reject as r:
                 want = r
                 self.model.opstate = snap
+        before = {op: (SV[id(st_)]) for pl in self.pipelines for op, st_ in pl.runtime_status().operator_states.items()}
         try:
             a = Assignment(ops=list(ops), cpu=cpu, ram=ram, priority=prio or ops[0].pipeline.priority,
                            pool_id=pool, pipeline_id=ops[0].pipeline.pipeline_id)
         except Exception as e:
             self.exception = ("sched", self.tick, e, site_of(e))
             self.stats["rejected"] += 1
+            # a refused hand-over leaves every operator that was not assignable (its request is the refused one, or it
+            # was never part of the request) exactly as it was; assignable members may have been claimed or not
+            for pl in self.pipelines:
+                for op, st_ in pl.runtime_status().operator_states.items():
+                    was = before.get(op)
+                    now = SV[id(st_)]
+                    if now != was and not (op in ops and was in (P, F) and now == A):
+                        self.flag({"C02"}, "refused-assignment-changed-state", f"refused assignment of {[self.name(o) for o in ops]}: {self.name(op)} went {was} -> {now}")
             if self.model is not None and not self.model_dead and want is None:
                 self.flag({"C02"}, "admissible-assignment-refused", f"{[self.name(o) for o in ops]}: {type(e).__name__}: {e}", site_of(e))
             self.ended = True
@@ -267,6 +277,9 @@ class World:
                 [c.container_id for c in p.suspending_containers]) for p in ex.pools]
         pre_ids = {c.container_id for p in ex.pools for c in p.active_containers + p.suspending_containers}
         results, exc = None, None
+        # a reason that can be read off the decision alone (needs no timing model, so it is available even when the
+        # reference executor has stopped following the run because a tick count became float-ambiguous)
+        self.static_reject = "multi-op-disabled" if (not self.multi and any(len(a.ops) != 1 for a in asg)) else None
         try:
             results = (self.exec_call or ex.run_one_tick)(sus, asg)
         except Exception as e:
@@ -296,6 +309,10 @@ class World:
             self.tick += 1
         self.phase = "between"
         return results
+
+    def reject_reason(self):
+        """why the last refused decision was inadmissible: the reference executor's reason, or (model not following) the static one"""
+        return self.last_reject or (self.static_reject if self.model_dead or self.model is None else None)
 
     def _new_container(self, cid, a, c):
         self.pending_new = getattr(self, "pending_new", [])
@@ -460,6 +477,9 @@ class World:
             for c in p.active_containers:
                 k = self.key_of_cid.get(c.container_id)
                 rc = m.all.get(k)
+                cap = getattr(rc, "mem_cap", None)
+                if cap is not None and Fr(c.get_current_memory_usage()) > cap and not near(Fr(c.get_current_memory_usage()), cap):
+                    self.flag({"C04", "C05"}, "container-memory-above-demand", f"tick {self.tick} container {k}: uses {c.get_current_memory_usage()}, but no segment of its current operator states more than {float(cap)}")
                 if rc is None or rc.mem is None:
                     if rc is not None:
                         tot += Fr(c.get_current_memory_usage())
